@@ -37,6 +37,9 @@ impl Rec {
             pending: None,
             counters: serde_json::Map::new(),
         })));
+        // the clock of the "stuck" rule starts now: a driver can hang in the code under test before
+        // it has recorded anything (history generation executes operations to learn lengths)
+        LAST_ACTIVITY.store(now_ms(), Ordering::SeqCst);
         let w = r.clone();
         std::thread::spawn(move || loop {
             std::thread::sleep(Duration::from_millis(250));
